@@ -332,13 +332,25 @@ func c06After(ctx *vk.Ctx, ch *rkChain, tr *c06Track, where string) error {
 	}
 	tr.observe(sn)
 	probs := c06Check(sn)
+	// objects whose recorded owner is gone or no longer refers to them
+	stale := map[string]bool{}
+	for _, p := range probs {
+		if p.Kind == "owner-stale" {
+			stale[p.Obj] = true
+		}
+	}
 	var bad []string
 	for _, p := range probs {
 		if strings.HasPrefix(p.Kind, "obs:") {
 			ctx.Class(p.Kind)
 			continue
 		}
-		if p.Kind == "owner-stale" && ctx.Known(c06KeyStaleOwner) {
+		// The stale owner itself; and, for exactly such an object, an OwnerID
+		// that should have been cleared when the object escaped: the clearing in
+		// processNewEscapedMarks is skipped when the recorded owner cannot be
+		// loaded any more (po == nil -> continue), a consequence of the same
+		// defect.
+		if (p.Kind == "owner-stale" || ((p.Kind == "owner" || p.Kind == "owner-on-escaped") && stale[p.Obj])) && ctx.Known(c06KeyStaleOwner) {
 			ctx.Class("known:" + p.Kind)
 			continue
 		}
